@@ -148,12 +148,6 @@ Proof. intros Hy Hx Hd. pose proof (derive_cont _ _ _ Hy) as Cy. pose proof (der
 Qed.
 
 (* ---- piecewise constant sub-expressions, floor *)
-Definition path (r : envT) (x : nat) (e : expr) : R -> R := fun t => eval e (upd r x t).
-Definition lc (r : envT) (x : nat) (e : expr) : Prop := locally (r x) (fun t => path r x e t = eval e r).
-
-Lemma path_at r x e : path r x e (r x) = eval e r.
-Proof. unfold path. now rewrite upd_same. Qed.
-
 Lemma Int_part_unique t z : IZR z < t -> t < IZR z + 1 -> Int_part t = z.
 Proof. intros H1 H2. unfold Int_part. rewrite <- (tech_up t (z + 1)); [lia | rewrite plus_IZR; lra | rewrite plus_IZR; lra]. Qed.
 
@@ -164,130 +158,176 @@ Proof. intros Hn. unfold Rfloor in *. destruct (base_Int_part u) as [H1 H2].
   assert (Hu : IZR (Int_part u) < u /\ u < IZR (Int_part u) + 1) by (split; lra).
   generalize (Ho u Hu). apply filter_imp. intros t [Ht1 Ht2]. f_equal. now apply Int_part_unique. Qed.
 
-Lemma lc_un r x a (h : R -> R) : lc r x a -> locally (r x) (fun t => h (path r x a t) = h (eval a r)).
-Proof. unfold lc. apply filter_imp. intros t Ht. now rewrite Ht. Qed.
-Lemma lc_bin r x a b (h : R -> R -> R) : lc r x a -> lc r x b ->
-  locally (r x) (fun t => h (path r x a t) (path r x b t) = h (eval a r) (eval b r)).
-Proof. unfold lc. intros Ha Hb. generalize (filter_and _ _ Ha Hb). apply filter_imp. intros t [H1 H2]. now rewrite H1, H2. Qed.
-
 Lemma derive_of_lc (f : R -> R) x0 c : locally x0 (fun t => f t = c) -> is_derive f x0 0.
 Proof. intros H. apply (is_derive_ext_loc (fun _ => c)).
   - revert H. apply filter_imp. intros t Ht. now rewrite Ht.
   - apply (@is_derive_const R_AbsRing R_NormedModule). Qed.
 
-Lemma andb4 a b c d : a && b && c && d = true -> a = true /\ b = true /\ c = true /\ d = true.
-Proof. destruct a, b, c, d; simpl; intuition discriminate. Qed.
+(* ---- differentiation along a curve of environments gam : R -> envT through rd = gam t0 *)
+Section Curve.
+Variable gam : R -> envT.
+Variable t0 : R.
+Variable rd : envT.
+Hypothesis Hat : gam t0 = rd.
+
+Definition path (e : expr) : R -> R := fun t => eval e (gam t).
+Definition lc (e : expr) : Prop := locally t0 (fun t => path e t = eval e rd).
+
+Lemma path_at e : path e t0 = eval e rd.
+Proof. unfold path. now rewrite Hat. Qed.
+
+Lemma lc_un a (h : R -> R) : lc a -> locally t0 (fun t => h (path a t) = h (eval a rd)).
+Proof. unfold lc. apply filter_imp. intros t Ht. now rewrite Ht. Qed.
+Lemma lc_bin a b (h : R -> R -> R) : lc a -> lc b ->
+  locally t0 (fun t => h (path a t) (path b t) = h (eval a rd) (eval b rd)).
+Proof. unfold lc. intros Ha Hb. generalize (filter_and _ _ Ha Hb). apply filter_imp. intros t [H1 H2]. now rewrite H1, H2. Qed.
 
 (* the branch of an `Ite` is locally the selected one *)
-Lemma ite_stable r x a b u v :
-  continuous (path r x a) (r x) -> continuous (path r x b) (r x) ->
-  (lconst a = true -> lc r x a) -> (lconst b = true -> lc r x b) -> strict a b r ->
-  locally (r x) (fun t => path r x (Ite a b u v) t =
-                          if Rlt_dec (eval a r) (eval b r) then path r x u t else path r x v t).
+Lemma ite_stable a b u v :
+  continuous (path a) t0 -> continuous (path b) t0 ->
+  (lconst a = true -> lc a) -> (lconst b = true -> lc b) -> strict a b rd ->
+  locally t0 (fun t => path (Ite a b u v) t =
+                       if Rlt_dec (eval a rd) (eval b rd) then path u t else path v t).
 Proof. intros Ca Cb La Lb Hs.
-  assert (Hu : forall t, path r x (Ite a b u v) t = if Rlt_dec (path r x a t) (path r x b t) then path r x u t else path r x v t) by reflexivity.
+  assert (Hu : forall t, path (Ite a b u v) t = if Rlt_dec (path a t) (path b t) then path u t else path v t) by reflexivity.
   destruct Hs as [Hne | Hl].
-  - destruct (Rlt_dec (eval a r) (eval b r)) as [Hlt | Hge].
-    + assert (H : path r x a (r x) < path r x b (r x)) by (rewrite !path_at; exact Hlt).
+  - destruct (Rlt_dec (eval a rd) (eval b rd)) as [Hlt | Hge].
+    + assert (H : path a t0 < path b t0) by (rewrite !path_at; exact Hlt).
       generalize (cont_locally_lt _ _ _ Ca Cb H). apply filter_imp. intros t Ht. rewrite Hu.
-      destruct (Rlt_dec (path r x a t) (path r x b t)); [reflexivity | lra].
-    + assert (H : path r x b (r x) < path r x a (r x)) by (rewrite !path_at; lra).
+      destruct (Rlt_dec (path a t) (path b t)); [reflexivity | lra].
+    + assert (H : path b t0 < path a t0) by (rewrite !path_at; lra).
       generalize (cont_locally_lt _ _ _ Cb Ca H). apply filter_imp. intros t Ht. rewrite Hu.
-      destruct (Rlt_dec (path r x a t) (path r x b t)); [lra | reflexivity].
+      destruct (Rlt_dec (path a t) (path b t)); [lra | reflexivity].
   - apply andb_true_iff in Hl. destruct Hl as [Hla Hlb].
     generalize (filter_and _ _ (La Hla) (Lb Hlb)). apply filter_imp. intros t [H1 H2]. now rewrite Hu, H1, H2.
 Qed.
 
-Theorem D_main r x e : mdom e r ->
-  is_derive (path r x e) (r x) (eval (D x e) r) /\ (lconst e = true -> lc r x e).
+Variable dv : nat -> expr.
+Variable kb : nat.
+Hypothesis Hdv : forall i, (i < kb)%nat -> is_derive (fun t => gam t i) t0 (eval (dv i) rd).
+
+Theorem Dg_main e : bounded kb e = true -> mdom e rd ->
+  is_derive (path e) t0 (eval (Dg dv e) rd) /\ (lconst e = true -> lc e).
 Proof.
-  assert (E : forall e0, path r x e0 (r x) = eval e0 r) by (intros; apply path_at).
+  assert (E : forall e0, path e0 t0 = eval e0 rd) by (intros; apply path_at).
   unfold lc.
   induction e as [i|q| |a IHa b IHb|a IHa b IHb|a IHa b IHb|a IHa b IHb|a IHa|a IHa n|a IHa|a IHa|a IHa|a IHa|a IHa
                  |y IHy x0 IHx|a IHa c|a IHa|a IHa|a IHa b IHb u IHu v IHv];
-    cbn [mdom D lconst]; intros Hd.
-  - (* Var *) split; [|discriminate]. unfold path, upd. cbn [eval]. destruct (Nat.eqb i x) eqn:Ex; cbn [eval].
-    + rewrite Q2R_1. apply (is_derive_id (r x)).
-    + rewrite Q2R_0. apply (@is_derive_const R_AbsRing R_NormedModule (r i) (r x)).
+    cbn [mdom Dg lconst bounded]; intros Hb Hd;
+    repeat match goal with H : _ && _ = true |- _ => apply andb_true_iff in H; destruct H end.
+  - (* Var *) split; [|discriminate]. apply Nat.ltb_lt in Hb. apply (Hdv i Hb).
   - (* Cst *) split.
-    + cbn [eval]. rewrite Q2R_0. apply (@is_derive_const R_AbsRing R_NormedModule (Q2R q) (r x)).
+    + cbn [eval]. rewrite Q2R_0. apply (@is_derive_const R_AbsRing R_NormedModule (Q2R q) t0).
     + intros _. apply filter_forall. reflexivity.
   - (* Pi *) split.
-    + cbn [eval]. rewrite Q2R_0. apply (@is_derive_const R_AbsRing R_NormedModule PI (r x)).
+    + cbn [eval]. rewrite Q2R_0. apply (@is_derive_const R_AbsRing R_NormedModule PI t0).
     + intros _. apply filter_forall. reflexivity.
-  - (* Add *) destruct Hd as [Ha Hb]. destruct (IHa Ha) as [Da La], (IHb Hb) as [Db Lb]. split.
+  - (* Add *) destruct Hd as [Ha Hb']. destruct (IHa H Ha) as [Da La], (IHb H0 Hb') as [Db Lb]. split.
     + rewrite eval_sadd. apply (add_case _ _ _ _ _ Da Db).
-    + intros H. apply andb_true_iff in H. destruct H as [H1 H2]. apply (lc_bin r x a b Rplus (La H1) (Lb H2)).
-  - (* Sub *) destruct Hd as [Ha Hb]. destruct (IHa Ha) as [Da La], (IHb Hb) as [Db Lb]. split.
+    + intros HH. apply andb_true_iff in HH. destruct HH as [H1 H2]. apply (lc_bin a b Rplus (La H1) (Lb H2)).
+  - (* Sub *) destruct Hd as [Ha Hb']. destruct (IHa H Ha) as [Da La], (IHb H0 Hb') as [Db Lb]. split.
     + rewrite eval_ssub. apply (sub_case _ _ _ _ _ Da Db).
-    + intros H. apply andb_true_iff in H. destruct H as [H1 H2]. apply (lc_bin r x a b Rminus (La H1) (Lb H2)).
-  - (* Mul *) destruct Hd as [Ha Hb]. destruct (IHa Ha) as [Da La], (IHb Hb) as [Db Lb]. split.
-    + rewrite eval_sadd, !eval_smul. pose proof (mul_case _ _ _ _ _ Da Db) as H. cbv beta in H. rewrite !E in H. exact H.
-    + intros H. apply andb_true_iff in H. destruct H as [H1 H2]. apply (lc_bin r x a b Rmult (La H1) (Lb H2)).
-  - (* Div *) destruct Hd as [Ha [Hb Hz]]. destruct (IHa Ha) as [Da La], (IHb Hb) as [Db Lb]. split.
+    + intros HH. apply andb_true_iff in HH. destruct HH as [H1 H2]. apply (lc_bin a b Rminus (La H1) (Lb H2)).
+  - (* Mul *) destruct Hd as [Ha Hb']. destruct (IHa H Ha) as [Da La], (IHb H0 Hb') as [Db Lb]. split.
+    + rewrite eval_sadd, !eval_smul. pose proof (mul_case _ _ _ _ _ Da Db) as HH. cbv beta in HH. rewrite !E in HH. exact HH.
+    + intros HH. apply andb_true_iff in HH. destruct HH as [H1 H2]. apply (lc_bin a b Rmult (La H1) (Lb H2)).
+  - (* Div *) destruct Hd as [Ha [Hb' Hz]]. destruct (IHa H Ha) as [Da La], (IHb H0 Hb') as [Db Lb]. split.
     + rewrite eval_ssub, eval_sdiv, eval_smul. cbn [eval].
-      pose proof (div_case _ _ _ _ _ Da Db) as H. cbv beta in H. rewrite !E in H. apply H. exact Hz.
-    + intros H. apply andb_true_iff in H. destruct H as [H1 H2]. apply (lc_bin r x a b Rdiv (La H1) (Lb H2)).
-  - (* Neg *) destruct (IHa Hd) as [Da La]. split.
+      pose proof (div_case _ _ _ _ _ Da Db) as HH. cbv beta in HH. rewrite !E in HH. apply HH. exact Hz.
+    + intros HH. apply andb_true_iff in HH. destruct HH as [H1 H2]. apply (lc_bin a b Rdiv (La H1) (Lb H2)).
+  - (* Neg *) destruct (IHa Hb Hd) as [Da La]. split.
     + rewrite eval_sneg. apply (neg_case _ _ _ Da).
-    + intros H. apply (lc_un r x a Ropp (La H)).
-  - (* Pow *) destruct (IHa Hd) as [Da _]. split; [|discriminate]. destruct n as [|k].
+    + intros HH. apply (lc_un a Ropp (La HH)).
+  - (* Pow *) destruct (IHa Hb Hd) as [Da _]. split; [|discriminate]. destruct n as [|k].
     + cbn [eval]. rewrite Q2R_0. apply (is_derive_ext (fun _ => 1)); [reflexivity|].
-      apply (@is_derive_const R_AbsRing R_NormedModule 1 (r x)).
+      apply (@is_derive_const R_AbsRing R_NormedModule 1 t0).
     + rewrite !eval_smul, eval_cnat. cbn [eval].
-      pose proof (pow_case _ _ _ k Da) as H. cbv beta in H. rewrite !E in H. exact H.
-  - (* Sqrt *) destruct Hd as [Ha Hp]. destruct (IHa Ha) as [Da _]. split; [|discriminate].
+      pose proof (pow_case _ _ _ k Da) as HH. cbv beta in HH. rewrite !E in HH. exact HH.
+  - (* Sqrt *) destruct Hd as [Ha Hp]. destruct (IHa Hb Ha) as [Da _]. split; [|discriminate].
     rewrite eval_sdiv. cbn [eval]. rewrite Q2R_2.
-    pose proof (sqrt_case _ _ _ Da) as H. cbv beta in H. rewrite !E in H. apply H. exact Hp.
-  - (* Sin *) destruct (IHa Hd) as [Da _]. split; [|discriminate]. rewrite eval_smul. cbn [eval].
-    pose proof (comp_case sin _ _ _ _ (is_derive_sin _) Da) as H. cbv beta in H. rewrite !E in H. exact H.
-  - (* Cos *) destruct (IHa Hd) as [Da _]. split; [|discriminate]. rewrite eval_smul. cbn [eval].
-    pose proof (comp_case cos _ _ _ _ (is_derive_cos _) Da) as H. cbv beta in H. rewrite !E in H. exact H.
-  - (* Exp *) destruct (IHa Hd) as [Da _]. split; [|discriminate]. rewrite eval_smul. cbn [eval].
-    pose proof (comp_case exp _ _ _ _ (is_derive_exp _) Da) as H. cbv beta in H. rewrite !E in H. exact H.
-  - (* Ln *) destruct Hd as [Ha Hp]. destruct (IHa Ha) as [Da _]. split; [|discriminate]. rewrite eval_sdiv.
-    assert (Hp' : 0 < path r x a (r x)) by (rewrite E; exact Hp).
-    pose proof (comp_case ln _ _ _ _ (is_derive_ln _ Hp') Da) as H. cbv beta in H. rewrite !E in H.
-    evar_last. exact H. unfold Rdiv. ring.
-  - (* Atan2 *) destruct Hd as [Hy [Hx Hc]]. destruct (IHy Hy) as [Dy _], (IHx Hx) as [Dx _]. split; [|discriminate].
+    pose proof (sqrt_case _ _ _ Da) as HH. cbv beta in HH. rewrite !E in HH. apply HH. exact Hp.
+  - (* Sin *) destruct (IHa Hb Hd) as [Da _]. split; [|discriminate]. rewrite eval_smul. cbn [eval].
+    pose proof (comp_case sin _ _ _ _ (is_derive_sin _) Da) as HH. cbv beta in HH. rewrite !E in HH. exact HH.
+  - (* Cos *) destruct (IHa Hb Hd) as [Da _]. split; [|discriminate]. rewrite eval_smul. cbn [eval].
+    pose proof (comp_case cos _ _ _ _ (is_derive_cos _) Da) as HH. cbv beta in HH. rewrite !E in HH. exact HH.
+  - (* Exp *) destruct (IHa Hb Hd) as [Da _]. split; [|discriminate]. rewrite eval_smul. cbn [eval].
+    pose proof (comp_case exp _ _ _ _ (is_derive_exp _) Da) as HH. cbv beta in HH. rewrite !E in HH. exact HH.
+  - (* Ln *) destruct Hd as [Ha Hp]. destruct (IHa Hb Ha) as [Da _]. split; [|discriminate]. rewrite eval_sdiv.
+    assert (Hp' : 0 < path a t0) by (rewrite E; exact Hp).
+    pose proof (comp_case ln _ _ _ _ (is_derive_ln _ Hp') Da) as HH. cbv beta in HH. rewrite !E in HH.
+    evar_last. exact HH. unfold Rdiv. ring.
+  - (* Atan2 *) destruct Hd as [Hy [Hx Hc]]. destruct (IHy H Hy) as [Dy _], (IHx H0 Hx) as [Dx _]. split; [|discriminate].
     rewrite eval_sdiv, eval_ssub, !eval_smul. cbn [eval].
-    pose proof (atan2_case _ _ _ _ _ Dy Dx) as H. cbv beta in H. rewrite !E in H. apply H. exact Hc.
-  - (* Rpw *) destruct Hd as [Ha Hp]. destruct (IHa Ha) as [Da _]. split; [|discriminate].
+    pose proof (atan2_case _ _ _ _ _ Dy Dx) as HH. cbv beta in HH. rewrite !E in HH. apply HH. exact Hc.
+  - (* Rpw *) destruct Hd as [Ha Hp]. destruct (IHa Hb Ha) as [Da _]. split; [|discriminate].
     rewrite !eval_smul. cbn [eval]. rewrite Q2R_minus, Q2R_1.
-    pose proof (rpw_case _ _ _ (Q2R c) Da) as H. cbv beta in H. rewrite !E in H. apply H. exact Hp.
-  - (* Abs *) destruct Hd as [Ha Hn]. destruct (IHa Ha) as [Da _]. split; [|discriminate].
+    pose proof (rpw_case _ _ _ (Q2R c) Da) as HH. cbv beta in HH. rewrite !E in HH. apply HH. exact Hp.
+  - (* Abs *) destruct Hd as [Ha Hn]. destruct (IHa Hb Ha) as [Da _]. split; [|discriminate].
     rewrite eval_site, eval_sneg. cbn [eval]. rewrite Q2R_0.
-    assert (Hn' : path r x a (r x) <> 0) by (rewrite E; exact Hn).
-    pose proof (is_derive_Rabs _ _ _ Da Hn') as H. cbv beta in H. rewrite !E in H.
-    evar_last. exact H.
-    destruct (Rlt_dec 0 (eval a r)) as [Hp | Hp].
+    assert (Hn' : path a t0 <> 0) by (rewrite E; exact Hn).
+    pose proof (is_derive_Rabs _ _ _ Da Hn') as HH. cbv beta in HH. rewrite !E in HH.
+    evar_last. exact HH.
+    destruct (Rlt_dec 0 (eval a rd)) as [Hp | Hp].
     + rewrite sign_eq_1 by exact Hp. ring.
     + rewrite sign_eq_m1 by lra. ring.
-  - (* Floor *) destruct Hd as [Ha Hn]. destruct (IHa Ha) as [Da La].
-    assert (L : lc r x (Floor a)).
+  - (* Floor *) destruct Hd as [Ha Hn]. destruct (IHa Hb Ha) as [Da La].
+    assert (L : lc (Floor a)).
     { unfold lc. destruct Hn as [Hl | Hn].
-      - apply (lc_un r x a Rfloor (La Hl)).
+      - apply (lc_un a Rfloor (La Hl)).
       - pose proof (derive_cont _ _ _ Da) as Ca.
-        assert (Hn' : path r x a (r x) <> Rfloor (path r x a (r x))) by (rewrite E; exact Hn).
+        assert (Hn' : path a t0 <> Rfloor (path a t0)) by (rewrite E; exact Hn).
         pose proof (floor_locally _ Hn') as Hf. specialize (Ca _ Hf). unfold filtermap in Ca.
-        revert Ca. apply filter_imp. intros t Ht. unfold path at 1. cbn [eval]. fold (path r x a t). rewrite Ht, E. reflexivity. }
+        revert Ca. apply filter_imp. intros t Ht.
+        change (Rfloor (path a t) = Rfloor (eval a rd)). rewrite Ht, E. reflexivity. }
     split; [|intros _; exact L]. cbn [eval]. rewrite Q2R_0. apply (derive_of_lc _ _ _ L).
-  - (* Ite *) destruct Hd as [Ha [Hb [Hs Hbr]]]. destruct (IHa Ha) as [Da La], (IHb Hb) as [Db Lb].
-    pose proof (ite_stable r x a b u v (derive_cont _ _ _ Da) (derive_cont _ _ _ Db) La Lb Hs) as Hst.
+  - (* Ite *) destruct Hd as [Ha [Hb' [Hs Hbr]]]. destruct (IHa H Ha) as [Da La], (IHb H2 Hb') as [Db Lb].
+    pose proof (ite_stable a b u v (derive_cont _ _ _ Da) (derive_cont _ _ _ Db) La Lb Hs) as Hst.
     rewrite eval_site. cbn [eval].
-    destruct (Rlt_dec (eval a r) (eval b r)) as [Hlt | Hge].
-    + destruct (IHu Hbr) as [Du Lu]. split.
-      * apply (is_derive_ext_loc (path r x u)); [|exact Du]. revert Hst. apply filter_imp. intros t Ht. now rewrite Ht.
-      * intros H. apply andb4 in H. destruct H as [_ [_ [H3 _]]].
-        generalize (filter_and _ _ Hst (Lu H3)). apply filter_imp. intros t [H1 H2]. now rewrite H1, H2.
-    + destruct (IHv Hbr) as [Dv Lv]. split.
-      * apply (is_derive_ext_loc (path r x v)); [|exact Dv]. revert Hst. apply filter_imp. intros t Ht. now rewrite Ht.
-      * intros H. apply andb4 in H. destruct H as [_ [_ [_ H4]]].
-        generalize (filter_and _ _ Hst (Lv H4)). apply filter_imp. intros t [H1 H2]. now rewrite H1, H2.
+    destruct (Rlt_dec (eval a rd) (eval b rd)) as [Hlt | Hge].
+    + destruct (IHu H1 Hbr) as [Du Lu]. split.
+      * apply (is_derive_ext_loc (path u)); [|exact Du]. revert Hst. apply filter_imp. intros t Ht. now rewrite Ht.
+      * intros HH. apply andb_true_iff in HH. destruct HH as [H3 _].
+        generalize (filter_and _ _ Hst (Lu H3)). apply filter_imp. intros t [H4 H5]. now rewrite H4, H5.
+    + destruct (IHv H0 Hbr) as [Dv Lv]. split.
+      * apply (is_derive_ext_loc (path v)); [|exact Dv]. revert Hst. apply filter_imp. intros t Ht. now rewrite Ht.
+      * intros HH. apply andb_true_iff in HH. destruct HH as [_ H4].
+        generalize (filter_and _ _ Hst (Lv H4)). apply filter_imp. intros t [H5 H6]. now rewrite H5, H6.
+Qed.
+End Curve.
+
+(* a bound on the variables of an expression *)
+Fixpoint vbound (e : expr) : nat :=
+  match e with
+  | Var i => S i
+  | Cst _ | CPi => O
+  | Add a b | Sub a b | Mul a b | Div a b | Atan2 a b => Nat.max (vbound a) (vbound b)
+  | Neg a | Pow a _ | Sqrt a | Sin a | Cos a | Exp a | Ln a | Rpw a _ | Abs a | Floor a => vbound a
+  | Ite a b x y => Nat.max (Nat.max (vbound a) (vbound b)) (Nat.max (vbound x) (vbound y))
+  end.
+Lemma bounded_vbound e k : (vbound e <= k)%nat -> bounded k e = true.
+Proof. revert k. induction e; cbn [vbound bounded]; intros k Hk; rewrite ?andb_true_iff; repeat split;
+  try reflexivity; try (apply Nat.ltb_lt; lia); auto;
+  match goal with IH : forall k, _ -> bounded k ?a = true |- bounded _ ?a = true => apply IH; lia end. Qed.
+
+Theorem chain_rule (gam : R -> envT) (t0 : R) (dv : nat -> expr) (kb : nat) e :
+  (forall i, (i < kb)%nat -> is_derive (fun t => gam t i) t0 (eval (dv i) (gam t0))) ->
+  bounded kb e = true -> mdom e (gam t0) ->
+  is_derive (fun t => eval e (gam t)) t0 (eval (Dg dv e) (gam t0)).
+Proof. intros Hv Hb Hd. exact (proj1 (Dg_main gam t0 (gam t0) eq_refl dv kb Hv e Hb Hd)). Qed.
+
+Theorem D_main r x e : mdom e r ->
+  is_derive (fun t => eval e (upd r x t)) (r x) (eval (D x e) r).
+Proof. intros Hd. unfold D.
+  assert (Hv : forall i, (i < vbound e)%nat -> is_derive (fun t => upd r x t i) (r x) (eval (dx x i) r)).
+  { intros i _. unfold upd, dx. destruct (Nat.eqb i x) eqn:Ex; cbn [eval].
+    - rewrite Q2R_1. apply (is_derive_id (r x)).
+    - rewrite Q2R_0. apply (@is_derive_const R_AbsRing R_NormedModule (r i) (r x)). }
+  exact (proj1 (Dg_main (fun t => upd r x t) (r x) r (upd_same r x) (dx x) (vbound e) Hv e
+                        (bounded_vbound e _ (le_n _)) Hd)).
 Qed.
 
 Theorem D_correct_m r x e : mdom e r -> is_derive (fun t => eval e (upd r x t)) (r x) (eval (D x e) r).
-Proof. intros H. exact (proj1 (D_main r x e H)). Qed.
+Proof. exact (D_main r x e). Qed.
 
 Lemma dom_mdom e r : dom e r -> mdom e r.
 Proof. induction e; cbn [dom mdom]; try tauto.
@@ -297,12 +337,12 @@ Theorem D_correct r x e : dom e r -> is_derive (fun t => eval e (upd r x t)) (r 
 Proof. intros H. apply D_correct_m, dom_mdom, H. Qed.
 
 (* the gradient expression has no singular sub-expression on the autograd-safe domain *)
-Theorem dom_D r x e : dom e r -> dom (D x e) r.
-Proof.
+Theorem dom_Dg r dv e : (forall i, dom (dv i) r) -> dom e r -> dom (Dg dv e) r.
+Proof. intros Hdv.
   induction e as [i|q| |a IHa b IHb|a IHa b IHb|a IHa b IHb|a IHa b IHb|a IHa|a IHa n|a IHa|a IHa|a IHa|a IHa|a IHa
                  |y IHy x0 IHx|a IHa c|a IHa|a IHa|a IHa b IHb u IHu v IHv];
-    cbn [dom D]; intros Hd.
-  - destruct (Nat.eqb i x); exact I.
+    cbn [dom Dg]; intros Hd.
+  - apply Hdv.
   - exact I.
   - exact I.
   - destruct Hd. apply dom_sadd; auto.
@@ -325,8 +365,11 @@ Proof.
   - destruct Hd as [Ha Hp]. apply dom_smul; auto. apply dom_smul; [exact I|]. cbn [dom]. tauto.
   - destruct Hd as [Ha Hn]. apply dom_site; auto. exact I. left. cbn [eval]. rewrite Q2R_0. auto. apply dom_sneg; auto.
   - exact I.
-  - destruct Hd as [Ha [Hb [Hs [Hu Hv]]]]. apply dom_site; auto.
+  - destruct Hd as [Ha [Hb [Hs [Hu Hv0]]]]. apply dom_site; auto.
 Qed.
+
+Theorem dom_D r x e : dom e r -> dom (D x e) r.
+Proof. apply dom_Dg. intros i. unfold dx. destruct (Nat.eqb i x); exact I. Qed.
 
 Theorem conds_iff r e : List.Forall (holds r) (conds e) <-> dom e r.
 Proof. induction e; cbn [conds dom]; rewrite ?Forall_app, ?Forall_cons_iff, ?Forall_nil_iff; cbn [holds]; tauto. Qed.
@@ -338,6 +381,72 @@ Theorem grad_correct r n e : dom e r ->
 Proof. intros Hd i Hi. unfold grad.
   rewrite (nth_indep _ (Cst 0) (D 0 e)) by (rewrite map_length, seq_length; exact Hi).
   rewrite (map_nth (fun j => D j e)), seq_nth by exact Hi. cbn. split; [apply D_correct | apply dom_D]; exact Hd. Qed.
+
+(* ================================================================ straight-line programs: forward-mode tangents *)
+Lemma eval_agree k e r1 r2 : (forall i, (i < k)%nat -> r1 i = r2 i) -> bounded k e = true -> eval e r1 = eval e r2.
+Proof. intros Hag. induction e; cbn [bounded eval]; intros Hb;
+  repeat match goal with H : _ && _ = true |- _ => apply andb_true_iff in H; destruct H end;
+  try reflexivity;
+  try (apply Nat.ltb_lt in Hb; now apply Hag);
+  repeat match goal with IH : bounded k ?a = true -> _, H : bounded k ?a = true |- _ => rewrite (IH H); clear IH end;
+  reflexivity. Qed.
+
+Lemma ssa_gen M p : forall k (gam : R -> envT) (rT : envT) (t0 : R),
+  (k + length p <= M)%nat -> wf p k = true -> pdomT M p k rT ->
+  (forall i, (i < M)%nat -> gam t0 i = rT i) ->
+  (forall i, (i < k)%nat -> is_derive (fun t => gam t i) t0 (rT (i + M)%nat)) ->
+  forall s, (s < k + length p)%nat -> is_derive (fun t => run p k (gam t) s) t0 (runT M p k rT (s + M)%nat).
+Proof. induction p as [|e q IH]; intros k gam rT t0 Hlen Hwf Hpd HA HB s Hs; cbn [run runT wf pdomT length] in *.
+  - apply HB. lia.
+  - apply andb_true_iff in Hwf. destruct Hwf as [Hbe Hwq]. destruct Hpd as [Hme Hpq].
+    assert (Hagk : forall i, (i < k)%nat -> gam t0 i = rT i) by (intros; apply HA; lia).
+    apply (IH (S k) (fun t => upd (gam t) k (eval e (gam t)))
+              (upd (upd rT k (eval e rT)) (k + M) (eval (Dg (dvk k M) e) rT)) t0); try lia; auto.
+    + (* agreement *) intros i Hi. unfold upd.
+      destruct (Nat.eqb i (k + M)) eqn:E1; [apply Nat.eqb_eq in E1; lia|].
+      destruct (Nat.eqb i k) eqn:E2; [|apply HA; exact Hi].
+      apply (eval_agree k); auto.
+    + (* tangents *) intros i Hi. unfold upd.
+      destruct (Nat.eqb i k) eqn:E2.
+      * apply Nat.eqb_eq in E2. subst i. rewrite Nat.eqb_refl.
+        set (gamH := fun (t : R) (i : nat) => if i <? k then gam t i else rT i).
+        assert (H0 : gamH t0 = rT).
+        { apply functional_extensionality. intros i. unfold gamH. destruct (i <? k) eqn:E; [apply Nat.ltb_lt in E; auto | reflexivity]. }
+        assert (Hdv : forall i, (i < k)%nat -> is_derive (fun t => gamH t i) t0 (eval (dvk k M i) rT)).
+        { intros i Hik. unfold gamH, dvk. apply Nat.ltb_lt in Hik. rewrite Hik. cbn [eval]. apply HB. apply Nat.ltb_lt. exact Hik. }
+        pose proof (proj1 (Dg_main gamH t0 rT H0 (dvk k M) k Hdv e Hbe Hme)) as Hd.
+        apply (is_derive_ext (path gamH e)); [|exact Hd].
+        intros t. unfold path. apply (eval_agree k); auto.
+        intros i Hik. unfold gamH. apply Nat.ltb_lt in Hik. now rewrite Hik.
+      * apply Nat.eqb_neq in E2.
+        destruct (Nat.eqb (i + M) (k + M)) eqn:E3; [apply Nat.eqb_eq in E3; lia|].
+        destruct (Nat.eqb (i + M) k) eqn:E4; [apply Nat.eqb_eq in E4; lia|].
+        apply HB. lia.
+Qed.
+
+(* Seed the tangent of input x with 1, all other tangents with 0, run values and tangents in turn: the tangent
+   slot of every program variable then holds its partial derivative with respect to input x. *)
+Theorem ssa_correct M n p r x : (n + length p <= M)%nat -> (x < n)%nat -> wf p n = true ->
+  pdomT M p n (seed M x r) ->
+  forall s, (s < n + length p)%nat ->
+    is_derive (fun t => run p n (upd r x t) s) (r x) (runT M p n (seed M x r) (s + M)%nat).
+Proof. intros Hlen Hx Hwf Hpd s Hs.
+  apply (ssa_gen M p n (fun t => upd r x t) (seed M x r) (r x)); auto.
+  - intros i Hi. rewrite upd_same. unfold seed. apply Nat.ltb_lt in Hi. now rewrite Hi.
+  - intros i Hi. unfold seed, upd.
+    destruct (i + M <? M) eqn:E; [apply Nat.ltb_lt in E; lia|].
+    destruct (Nat.eqb i x) eqn:E1.
+    + apply Nat.eqb_eq in E1. subst i. rewrite Nat.eqb_refl. apply (is_derive_id (r x)).
+    + apply Nat.eqb_neq in E1. destruct (Nat.eqb (i + M) (x + M)) eqn:E2; [apply Nat.eqb_eq in E2; lia|].
+      apply (@is_derive_const R_AbsRing R_NormedModule (r i) (r x)).
+Qed.
+
+(* the tangent expressions Coq prints are singularity free wherever the instruction is *)
+Lemma dom_dvk k M i r : dom (dvk k M i) r.
+Proof. unfold dvk. destruct (i <? k); exact I. Qed.
+
+Theorem tangent_dom M k e r : dom e r -> dom (Dg (dvk k M) e) r.
+Proof. apply dom_Dg. intros i. apply dom_dvk. Qed.
 
 (* ================================================================ exact rational evaluation *)
 Lemma Q2R_pow_nat u n : Q2R (Qpow_nat u n) = Q2R u ^ n.
@@ -518,10 +627,10 @@ Proof. pose proof lab_t_pos as Ht.
     destruct (Rlt_dec (Q2R lab_t) 0); [lra|]. repeat split; auto. left. lra. }
   split; [|split; [|split]].
   - unfold lab_f_orig, wp_orig, black. cbn [dom eval]. intros H. decompose [and] H. lra.
-  - vm_compute D. unfold black. cbn [dom eval]. intros H. decompose [and] H. lra.
+  - vm_compute (D 0 lab_f_orig). unfold black. cbn [dom eval]. intros H. decompose [and] H. lra.
   - exact Hm.
   - pose proof (D_correct_m black 0%nat lab_f_orig Hm) as H. unfold black at 2 in H.
-    evar_last. exact H. vm_compute D. unfold black. cbn [eval]. destruct (Rlt_dec (Q2R (216 # 24389)) 0); [|reflexivity].
+    evar_last. exact H. vm_compute (D 0 lab_f_orig). unfold black. cbn [eval]. destruct (Rlt_dec (Q2R (216 # 24389)) 0); [|reflexivity].
     unfold Q2R in r; cbn in r. lra. Qed.
 
 Theorem lab_f_fixed_dom r : r 0%nat <> Q2R lab_t -> dom lab_f_fixed r /\ dom (D 0 lab_f_fixed) r /\
